@@ -37,6 +37,32 @@ CLAIMED['C04'] = dict(
     text='Partial by design: decides that all 12 CRC lookup tables are the byte-CRC of the documented polynomial (reference anchored to published check values); that every folding constant rk* of all 30 PCLMUL kernels - including the _01/_02/by4/by8 variants the host never dispatches - is congruent to x^e mod P for the exponent its fold distance prescribes, and rk7/rk8 are the Barrett pair, by formula per representation; the merge tables of the two crc32-instruction iSCSI kernels; that each *_base function reads exactly its own table with the documented inversion convention; Adler modulus 65521 in C and asm and that the deferred-modulo block sizes cannot overflow the accumulators; (with C05 machinery) that checksum kernels store nothing outside their stack frame. That the folding code itself (pclmulqdq immediates, tails) computes the CRC and that seeds chain is NOT decided.',
     note='Trusts nasm/clang constant evaluation, tools/gf2.py, and the catalogue check values used to anchor the reference polynomials.')
 
+CLAIMED['C03'] = dict(
+    category='other', design_ref='DESIGN.md section 3, C03',
+    technique='static analysis: pointer-provenance dataflow (origin x affine abstract domain) over the CFG of every assembled kernel (nasm+objdump, recursive descent); AST lint of the C batching wrappers with resolved callees; entry-guard extraction by affine dataflow; flag-liveness dataflow',
+    text='Partial by design. Decides for all six ISA families (five never run by the suite on this host): (1) the ec_encode_data_<isa> wrappers call the widest kernel in the loop and advance g_tbls by W*k*S (S read from the table initialisers), coding and rows by W; have one arm per remainder calling the kernel of that arity with the documented arguments; stay within one ISA family; and fall back to the portable code below a length that is >= the minimum each called kernel accepts (extracted from the kernel\'s entry guard) - the wrappers ignore the kernels\' return value, so a mismatch silently leaves parity unwritten; (2) every store of all 33 dot-product kernels goes through dest[j], 0<=j<arity, or the stack frame, sources are read only through the source array, tables through the table pointer, outputs are never read; (3) every compare is consumed. NOT decided: the GF(2^8) arithmetic inside the kernels and the length bounds of accesses.',
+    note='Trusts nasm/objdump decoding, the fail-closed ASMFLOW transfer functions, SysV argument roles from erasure_code.h, clang AST.')
+CLAIMED['C13'] = dict(
+    category='other', design_ref='DESIGN.md section 3, C13',
+    technique='static analysis: pointer-provenance dataflow (origin x affine abstract domain) over the CFG of every assembled kernel (nasm+objdump, recursive descent); AST lint of the update wrappers; entry-guard extraction; flag liveness',
+    text='Partial by design, same split as C03 on the update side: the six ec_encode_data_update_<isa> wrappers (stride, arms, ISA family, k and vec_i passed through unchanged, hand-off length vs. kernel entry guards); all 35 gf_<n>vect_mad_<isa> kernels store and read-modify only through parity pointers and read the source only through src; gf_vect_mul_{sse,avx} store only through dest and reject len % 32 != 0 with a non-zero return before touching memory. NOT decided: that overlapped tail bytes are accumulated exactly once, and the GF arithmetic.',
+    note='Same trusted base as C03.')
+CLAIMED['C05'] = dict(
+    category='other', design_ref='DESIGN.md section 3, C05',
+    technique='static analysis: pointer-provenance dataflow (origin x affine abstract domain) over the CFG of every assembled kernel (nasm+objdump, recursive descent), with per-family declared read/write object sets; coverage accounting of every byte of .text',
+    text='Partial by design: decides WHICH object every memory access of every asm function goes to, not whether its offset stays inside the object. For all 138 asm kernels (141 units; every byte of .text is shown to be reachable code, padding or a labelled data table) each store/load/read-modify-write is attributed to the argument object, stack frame or constant pool its address derives from and must lie in the declared write/read set of its family: read-only kernels are store-free; nothing is written through source, table, Huffman-table or global pointers; and no kernel stores a pointer derived from caller input into persistent state (only back into the next_in field). BOUNDS (pos+width <= len on every tail path, C array indexes, sufficiency of the retained history) are NOT decided: they need relational numeric invariants that no tool in this sandbox provides.',
+    note='Trusts nasm/objdump decoding, ASMFLOW (fail-closed), argument roles in tools/kernels.py from the public prototypes, struct offsets evaluated by nasm.')
+CLAIMED['C08'] = dict(
+    category='other', design_ref='DESIGN.md section 3, C08',
+    technique='static analysis: pointer-provenance dataflow (origin x affine abstract domain) over the CFG of every assembled kernel (nasm+objdump, recursive descent) (array element index affine in vects); entry-guard extraction vs. limits parsed from raid.h; flag-liveness dataflow; constant probes',
+    text='Partial by design: for all nine RAID asm kernels, parity stores go only through array[vects-1] (xor) / array[vects-2] and array[vects-1] (P+Q) and check kernels store nothing; vects below the documented minimum of raid.h (and for P+Q a length that is not the documented multiple) reaches a non-zero constant return before any access through the array, success exits return 0; every ptest/cmp of the check kernels is consumed by a branch (a deleted "jnz return_fail" leaves a dead compare); reduction constants are 0x1d in asm and in the SWAR base code. NOT decided: that P/Q bytes have the right values and completeness of detection.',
+    note='Same trusted base as C03; documented limits are parsed from the doxygen comments of include/raid.h.')
+CLAIMED['C20'] = dict(
+    category='other', design_ref='DESIGN.md section 3, C20',
+    technique='static analysis: AST lint with an abstract cursor over the fall-through switch of the portable variant; pointer-provenance and flag-liveness dataflow over the asm variants',
+    text='Partial by design: portable variant - the word loop consumes sizeof(uintmax_t) bytes per iteration and returns on a non-zero word; for every remainder 1..7 the fall-through path reads exactly bytes [0,k) at the cursor and ORs each into the result that decides the return value. Asm variants (sse/avx/avx2/avx512) - store-free, loads only through the buffer argument, every ptest/vptest/cmp consumed, return value is a 0/non-zero constant or flag. NOT decided: the vector variants\' accumulate and overlapped/masked tail arithmetic, and bounds.',
+    note='Trusts clang AST, nasm/objdump decoding, ASMFLOW.')
+
 NOT_APPLICABLE = {
     'C07': 'quantifies over call histories and buffer schedules; resumption correctness depends on run-time counts carried in state, no structural clause beyond the state-enum mirror already checked under C01',
     'C09': 'algebraic property of run-time matrices (invertibility, products over GF(2^8)); nothing in the shape of the code decides it, and loop summarisation over symbolic (m,k) is out of reach of the analyses used',
